@@ -142,6 +142,19 @@ def run(ctx):
                            searched="%d cases judged by the well-formedness validator, arc checker, geometry and grid oracles: none violates the property" % len(cases),
                            tie_failures=len(tie_fail), **describe(c, fl)), "model/implementation disagree", found_input=False)
 
+    # ---- one returned path per case through the Coq validator: ties the harness' wfGo to PathEnc.Enc.wf_data -------------
+    dcases = [c for c in cases if c["desc"].get("derived_coq")]
+    drows = vlib.coq_eval_shards("c10d-%d" % ctx.seed, HEADER, [c["desc"]["derived_coq"] for c in dcases], shard=ctx.n(150, 400)) if dcases else []
+    derived_bad = []
+    for c, row in zip(dcases, drows):
+        if row[0] & (4 | 512):
+            derived_bad.append((c, row[0]))
+    for c, fl in derived_bad[:2]:
+        # the Go-side validator accepted this result (otherwise it would not have been sampled): the Coq validator rejects it
+        ctx.violation(dict(kind="property-fails-on-implementation", method=c["desc"]["derived_method"], what="result-not-well-formed (Coq validator wf_data)",
+                           flags=[n for b, n in FLAGS.items() if fl & b], **describe(c)),
+                      "%s returned a path that is not well-formed on %s" % (c["desc"]["derived_method"], c["desc"].get("path", "")[:100]))
+
     # ---- observation half ----------------------------------------------------------------------
     obs_calls, obs_findings, foreign_notes = 0, [], {}
     unknown_newpath = []
@@ -200,6 +213,7 @@ def run(ctx):
             "model written by hand: PathEnc/{Enc,Builder,Scanner,Trace}.v (tied by the differential run below, not proved against Go source)",
             "on the generator grid (multiples of 1/16, |x| <= 40, no negative zero) the Go tests Equal/angleEqual/Hypot/Atan2/Signbit are decided exactly as the model's polynomial tests",
             "python: checks/c10.py doc-comment scan that derives the list of methods documented as returning a new path from the current source"]),
+        derived_results_validated_in_coq=len(dcases), derived_results_by_method=vlib.histogram([c['desc']['derived_method'] for c in dcases]),
         evaluations=len(cases), distinct_nontrivial=len(nontrivial), distinct=len(distinct),
         rule="one evaluation = one generated case (call history / SVG string / Append pair / shape constructor) built by the Go code and judged in Coq (model data == Data(), validator, arc checker, geometry oracle); distinct by (resulting path string, family); non-trivial: the resulting path decodes to >= 3 segments",
         families=fams, flag_counts=flagcount, segments_histogram=nsegs_hist,
